@@ -109,8 +109,12 @@ func vpNewEnv(height int64, maxAgeBlocks int64, maxAge time.Duration) *vpEnv {
 	params := *types.DefaultConsensusParams()
 	params.Evidence.MaxAgeNumBlocks = maxAgeBlocks
 	params.Evidence.MaxAgeDuration = maxAge
+	// the set changes after the latest block: what the state holds as current and next set (for the
+	// coming height) is not the set any evidence height was under
+	coming := types.NewValidatorSet([]*types.Validator{
+		types.NewValidator(keys[0].PubKey(), 4), types.NewValidator(keys[1].PubKey(), 5)})
 	state := sm.State{ChainID: vpChain, InitialHeight: 1, LastBlockHeight: height, LastBlockTime: vpBlockTime(height),
-		Validators: vals, NextValidators: vals, LastValidators: vals, ConsensusParams: params}
+		Validators: coming, NextValidators: coming, LastValidators: vals, ConsensusParams: params}
 	e := &vpEnv{keys: keys, vals: vals, db: dbm.NewMemDB(), state: state}
 	e.ss = &vpStateStore{state: state, vals: vals}
 	e.bs = &vpBlockStore{height: height, keys: keys, vals: vals, headers: map[int64]*types.Header{}}
@@ -174,7 +178,7 @@ func vpC11DuplicateVote() {
 	if err != nil {
 		panic(err)
 	}
-	evH := int64(vp.Range("evidence-height", 5, 9))
+	evH := int64(vp.Range("evidence-height", 5, 10))
 	who := 0
 	idx, val := e.vals.GetByAddress(e.keys[who].PubKey().Address())
 	ts := vpBlockTime(evH)
